@@ -112,3 +112,11 @@ Definition lookup_str {X} (k : kind) (l : list (option X)) (m : idmap) (s : list
       | None => None
       end
   end.
+
+(* a store configured with strip_temp_ids(false): the id maps do not resolve temporary ids, a
+   string in that syntax is an ordinary identifier *)
+Definition lookup_str_plain {X} (k : kind) (l : list (option X)) (m : idmap) (s : list N) : option nat :=
+  match plain_token k s with
+  | Some tok => resolve_ref l m (ById (N.to_nat tok))
+  | None => None
+  end.
